@@ -59,8 +59,9 @@ Definition builtins : list name :=
 
 (* ------------------------------------------------------------------ messages *)
 (* A well-formed message: the method together with the params lsprotocol structures for it.  The
-   three built-in requests carry their id; every method that is not a built-in is `COther` (its
-   name is "u/" ++ nm, so it cannot collide with a built-in), request (Some id) or notification.
+   three built-in requests carry their id; every other method is `COther` (its name is "u/" ++ nm, so
+   it cannot collide with a built-in of LanguageServerProtocol; it is a built-in iff the protocol
+   class adds it: cfg.c_extra), request (Some id) or notification.
    Documents, folders, texts and progress tokens are numbered; a didChange carries whole-document
    changes (the new texts). *)
 Inductive call :=
@@ -245,8 +246,15 @@ Definition code_cancelled : Z := (-32800)%Z.
 
 (* the registry after the decorated definitions of the case; which user functions raise;
    the progress tokens that exist; (for the reference only) which user functions ASK for the
-   server: first parameter named `ls` or annotated with the server's class *)
-Record cfg := mkCfg { c_reg : registry; c_raises : list N; c_tokens : list N; c_asks : list N }.
+   server: first parameter named `ls` or annotated with the server's class; the built-ins the
+   protocol class adds *)
+Record cfg := mkCfg { c_reg : registry; c_raises : list N; c_tokens : list N; c_asks : list N;
+                      c_extra : list (list N) }.
+
+(* FeatureManager._builtin_features of the server's protocol class: the @lsp_method methods of
+   LanguageServerProtocol plus those a subclass (protocol_cls=) adds - `c_extra`: their names after
+   "u/"; such a built-in has no effect on the workspace and returns None *)
+Definition bset (c : cfg) : list name := builtins ++ map other_name (c_extra c).
 
 Definition raises (c : cfg) (e : entry) : bool := memN (e_fid e) (c_raises c).
 (* a handler that returns, returns the number of its function *)
@@ -376,7 +384,7 @@ Definition builtin_body (c : cfg) (k : call) (s : st) : option st :=
   | None => None
   end.
 
-Definition result_of (k : call) : rval := match k with CShutdown _ => VNull | _ => VObj end.
+Definition result_of (k : call) : rval := match k with CInitialize _ _ => VObj | _ => VNull end.
 
 (* lsp_workspace__execute_command(params, msg_id); true = it raises *)
 Definition exec_cmd_body (c : cfg) (n : nat) (i : N) (cmd : list N) (a : N) (s : st) : st * bool :=
@@ -388,7 +396,7 @@ Definition exec_cmd_body (c : cfg) (n : nat) (i : N) (cmd : list N) (a : N) (s :
 Definition is_exec (k : call) : bool := match k with CExecCmd _ _ _ => true | _ => false end.
 
 Definition handle_request (c : cfg) (n : nat) (i : N) (k : call) (s : st) : st :=
-  match get_handler builtins (c_reg c) (meth_of k) with
+  match get_handler (bset c) (c_reg c) (meth_of k) with
   | HNotFound => add_out (OError i code_method_not_found) s
   | HUser e =>
       let (s1, x) := execute_request c i (mkInv n (meth_of k) PUser e [ACall k]) s in
@@ -400,7 +408,6 @@ Definition handle_request (c : cfg) (n : nat) (i : N) (k : call) (s : st) : st :
           let (s2, x) := exec_cmd_body c n i cmd a s1 in
           if x then add_out (OError i code_internal) s2
           else chain c n k [ACall k; AId i] s2
-      | COther _ _ _ => s                                          (* not a built-in: unreachable *)
       | _ =>                                                       (* _execute_request, inline *)
           let s1 := log_builtin n k [ACall k] s in
           match builtin_body c k s1 with
@@ -411,18 +418,14 @@ Definition handle_request (c : cfg) (n : nat) (i : N) (k : call) (s : st) : st :
   end.
 
 Definition handle_notification (c : cfg) (n : nat) (k : call) (s : st) : st :=
-  match get_handler builtins (c_reg c) (meth_of k) with
+  match get_handler (bset c) (c_reg c) (meth_of k) with
   | HNotFound => s
   | HUser e => fst (exec_notification c (mkInv n (meth_of k) PUser e [ACall k]) s)
   | HBuiltin =>
-      match k with
-      | COther _ _ _ => s                                          (* unreachable *)
-      | _ =>
-          let s1 := log_builtin n k [ACall k] s in
-          match builtin_body c k s1 with
-          | None => s1                                             (* reported to the error hook *)
-          | Some s2 => chain c n k [ACall k] s2
-          end
+      let s1 := log_builtin n k [ACall k] s in
+      match builtin_body c k s1 with
+      | None => s1                                                 (* reported to the error hook *)
+      | Some s2 => chain c n k [ACall k] s2
       end
   end.
 
